@@ -31,7 +31,7 @@ PY
     ;;
   esac
 done
-python3 -c "import ast; [ast.parse(open('/verif/harness/'+f).read()) for f in ('py2gal.py','src_functions.py','gen_consts.py')]; print('syntax ok')" || exit 1
+python3 -c "import ast,glob; [ast.parse(open(f).read()) for f in glob.glob('/verif/harness/*.py')]; print('syntax ok')" || { echo "SYNTAX ERROR after keep-both resolution: fix by hand, then git add -A && git commit"; exit 1; }
 git add -A; git commit -qm "Merge branch '$b' (source-translation links)" | tail -1
 PYTHONPATH=harness /venv/bin/python harness/gen_consts.py || exit 1
 for f in /root/wt/$b/coq/theories/Generated/Src*.v; do n=$(basename $f); cmp -s $f coq/theories/Generated/$n || echo "DIFFERS from $b: $n"; done
